@@ -109,6 +109,7 @@ class Exec:
         self.globals_heap = {}              # singleton objects etc., set up by the harness
         self.write_log = None
         self.depth = 0
+        self.proof_label = None
 
     # ---------------------------------------------------------------------------------------------
     # assumptions, obligations, branching
@@ -129,7 +130,9 @@ class Exec:
             goal = z3.BoolVal(True)
         if goal is False:
             goal = z3.BoolVal(False)
-        fn = self.frames[-1].finfo.qualname if self.frames else ""
+        fn = self.frames[-1].finfo.qualname if self.frames and self.frames[-1].finfo else ""
+        if self.proof_label and fn.split("#")[0] == self.proof_label.split("#")[0]:
+            fn = self.proof_label
         where = "%s:%s" % (fn, line) if line else fn
         path = "".join("T" if d else "F" for d in self.decisions) or "-"
         ob = Obligation("%s@%s[%s]" % (name, line if line else "", path), self.pc, goal, kind, where, expect, meta)
